@@ -18,6 +18,8 @@ QUICK_SOURCES = [
     ("glyphs3/COLRv1-gradient.glyphs", []),
     ("Vertical.ufo", []),
     ("fea_include.designspace", []),
+    ("glyphs3/WghtVar.glyphs", ["skip_features"]),   # the nop-job graph
+    ("glyphs3/Component.glyphs", ["decompose"]),
 ]
 
 SCHED_PANICS = ("unable to proceed", "Unable to proceed", "is not available", "Illegal read", "Illegal write",
@@ -40,7 +42,8 @@ def traced_builds(ctx, sources, configs, procs=6):
             tr = ctx.path("traces", tag + ".ndjson")
             font = ctx.path("fonts", tag + ".ttf")
             reqs.append(dict(tag=tag, src=source_path(rel), out=font, threads=threads, trace=tr, jitter=jitter,
-                             flags=flags))
+                             flags=[f for f in flags if f != "skip_features"],
+                             skip_features="skip_features" in flags))
             meta.append((rel, tuple(flags), (threads, jitter), tr, font))
     # tracing installs a process-global sink: one request at a time per process, several processes
     res = common.vh_batch(reqs, procs=procs)
